@@ -46,7 +46,12 @@ type projector struct {
 	m *Model
 }
 
-func collapse(s string) string { return strings.Join(strings.Fields(s), " ") }
+// collapse replaces runs of (ASCII) blanks by one space and trims: other characters - a no-break space, an
+// ideographic space - are content and stay as they are.
+func collapse(s string) string {
+	f := strings.FieldsFunc(s, func(r rune) bool { return r == ' ' || r == '\t' || r == '\n' || r == '\r' || r == '\f' || r == '\v' })
+	return strings.Join(f, " ")
+}
 
 func (p *projector) rules(n *SNode) []*jsonx.Node {
 	var out []*jsonx.Node
